@@ -402,21 +402,30 @@ func judgeAs(scen string, in, report In, ctx string, extra []string, o Outcome, 
 		bad("absent-role-fails", "CheckDebsig fails: no member _gpg"+in.Ask+" ("+what+")", o.Stable())
 		return vs
 	}
-	// (3) the signer is the key that made that member's signature, and it is in the keyring
-	var si *SigInfo
+	// (3) the signer is a key that made one of that member's signature packets, and it is in the keyring
+	// (several SigInfo entries with the same Role describe a member made of several signature packets)
+	var sis []*SigInfo
 	for i := range in.Sigs {
 		if in.Sigs[i].Role == in.Ask {
-			si = &in.Sigs[i]
+			sis = append(sis, &in.Sigs[i])
 		}
 	}
-	if si == nil {
+	if len(sis) == 0 {
 		bad("absent-role-fails", "CheckDebsig fails: the harness put no signature into _gpg"+in.Ask, o.Stable())
 		return vs
 	}
-	if o.SignerNil || o.Signer != si.Signer || !has(keyFPs, o.Signer) {
-		bad("signer-is-a-keyring-key-that-signed", fmt.Sprintf("failure, or signer %s (%s) only if it is in the keyring %v", si.Signer, si.SignerName, in.KeyringNames), o.Stable())
+	var bySigner []*SigInfo
+	var who []string
+	for _, si := range sis {
+		who = append(who, fmt.Sprintf("%s (%s)", si.Signer, si.SignerName))
+		if si.Signer == o.Signer {
+			bySigner = append(bySigner, si)
+		}
 	}
-	// (4) the signature covers debian-binary ‖ control ‖ data of the members the loader exposed
+	if o.SignerNil || len(bySigner) == 0 || !has(keyFPs, o.Signer) {
+		bad("signer-is-a-keyring-key-that-signed", fmt.Sprintf("failure, or signer among %v only if it is in the keyring %v", who, in.KeyringNames), o.Stable())
+	}
+	// (4) one of that signer's packets covers debian-binary ‖ control ‖ data of the members the loader exposed
 	var cat []byte
 	okCat := true
 	for _, n := range []string{"debian-binary", "control." + o.ControlExt, "data." + o.DataExt} {
@@ -427,9 +436,21 @@ func judgeAs(scen string, in, report In, ctx string, extra []string, o Outcome, 
 		}
 		cat = append(cat, c[len(c)-1]...)
 	}
-	if !okCat || !bytes.Equal(cat, si.Covers) {
-		bad("signature-covers-the-exposed-members", fmt.Sprintf("Load or CheckDebsig fails: the %d bytes signed by %s are not debian-binary‖control.%s‖data.%s of this archive (%s; %s)",
-			len(si.Covers), si.SignerName, o.ControlExt, o.DataExt, what, in.Fault), o.Stable())
+	covered := false
+	var lens []string
+	cands := bySigner
+	if len(cands) == 0 {
+		cands = sis
+	}
+	for _, si := range cands {
+		lens = append(lens, fmt.Sprintf("%d bytes by %s", len(si.Covers), si.SignerName))
+		if okCat && bytes.Equal(cat, si.Covers) {
+			covered = true
+		}
+	}
+	if !covered {
+		bad("signature-covers-the-exposed-members", fmt.Sprintf("Load or CheckDebsig fails: no signature packet of the member (%s) is over debian-binary‖control.%s‖data.%s of this archive (%s; %s)",
+			strings.Join(lens, ", "), o.ControlExt, o.DataExt, what, in.Fault), o.Stable())
 	}
 	// (5) what was exposed is the signed content
 	cin := c14.In{Model: in.Model, Exp: in.Exp, Verdict: "must-load", Deb: in.Deb}
